@@ -133,7 +133,21 @@ def arg_shapes(tier):
         yield {"id": "as%d" % n, "family": "c02.arg-shapes", "src": "class C(%s)\n" % params, "tags": ["args:class:" + params, "ctx:class"]}
 
 
+def operator_definitions(tier):
+    """every operator-like token as the NAME of a definition (method with one operand, method without, top-level function)"""
+    from .mutate import OPS
+    n = 0
+    for tok in OPS + ["+ -", "<>", "==", "**", "%", "~", "&", "|"]:
+        for ctx, src in (("method-binary", "class Od(def a: Int)\n    def %s(self, other: Od) -> Od => Od(self.a)\ndef o := Od(1)\n" % tok),
+                         ("method-unary", "class Od(def a: Int)\n    def %s(self) -> Od => Od(self.a)\ndef o := Od(1)\n" % tok),
+                         ("method-returning-bool", "class Od(def a: Int)\n    def %s(self, other: Od) -> Bool => True\ndef o := Od(1)\n" % tok),
+                         ("function", "def %s(a: Int, b: Int) -> Int => a\n" % tok)):
+            n += 1
+            yield {"id": "opdef%d" % n, "family": "c02.operator-definitions", "src": src, "tags": ["opname:" + tok, "ctx:" + ctx]}
+
+
 def all_families(tier):
+    yield from operator_definitions(tier)
     yield from literal_shapes(tier)
     yield from vanishing_bodies(tier)
     yield from match_orders(tier)
